@@ -357,6 +357,45 @@ func extractWire(p *pkgs, out string) {
 			fail("httpgrpc/client.go", "rChCap", "no `rCh: make(chan …)` in newClientStream")
 		}
 	}
+	// asMetadata hands every header value over whole: the functions it calls (sorted, distinct)
+	{
+		_, fd := p.funcDecl(mod+"/httpgrpc", "asMetadata")
+		if fd == nil {
+			fail("httpgrpc/io.go", "asMetadataCalls", "asMetadata not found")
+		} else {
+			seen := map[string]bool{}
+			ast.Inspect(fd, func(n ast.Node) bool {
+				if call, ok := n.(*ast.CallExpr); ok {
+					switch f := call.Fun.(type) {
+					case *ast.SelectorExpr:
+						seen[f.Sel.Name] = true
+					case *ast.Ident:
+						seen[f.Name] = true
+					}
+				}
+				return true
+			})
+			var names []string
+			for k := range seen {
+				names = append(names, k)
+			}
+			sort.Strings(names)
+			l.printf("def asMetadataCalls : List String := [")
+			for i, n := range names {
+				if i > 0 {
+					l.printf(", ")
+				}
+				l.printf("%s", leanStr(n))
+			}
+			l.printf("]\n")
+		}
+		pk, sd := p.methodDecl(mod+"/httpgrpc", "Server", "ServeHTTP")
+		if sd == nil || sd.Body == nil {
+			fail("httpgrpc/server.go", "serveHTTPBody", "Server.ServeHTTP not found")
+		} else {
+			l.printf("/-- Server.ServeHTTP: requests go to the mux as they are (exact registered paths only) -/\ndef serveHTTPBody : String := %s\n", leanStr(exprText(pk.Fset, sd.Body)))
+		}
+	}
 	must(l.finish(out))
 }
 
@@ -880,6 +919,37 @@ func extractCreds(p *pkgs, out string) {
 		}
 		l.printf("def %s : String := %s\n", fn.lean, leanStr(expr))
 	}
+	// the peer option is filled in before the reply's status is looked at (a failed call has talked to that peer too)
+	for _, fn := range []struct{ recv, goName, lean string }{{"Channel", "Invoke", "unaryPeerBeforeStatus"}, {"clientStream", "doHttpCall", "streamPeerBeforeStatus"}} {
+		_, fd := p.methodDecl(mod+"/httpgrpc", fn.recv, fn.goName)
+		if fd == nil {
+			fail("httpgrpc/client.go", fn.lean, "%s.%s not found", fn.recv, fn.goName)
+			continue
+		}
+		var setPeer, stat token.Pos
+		ast.Inspect(fd, func(n ast.Node) bool {
+			call, ok := n.(*ast.CallExpr)
+			if !ok {
+				return true
+			}
+			switch f := call.Fun.(type) {
+			case *ast.SelectorExpr:
+				if f.Sel.Name == "SetPeer" && setPeer == 0 {
+					setPeer = call.Pos()
+				}
+			case *ast.Ident:
+				if f.Name == "statFromResponse" && stat == 0 {
+					stat = call.Pos()
+				}
+			}
+			return true
+		})
+		if setPeer == 0 || stat == 0 {
+			fail("httpgrpc/client.go", fn.lean, "SetPeer / statFromResponse calls not found in %s", fn.goName)
+			continue
+		}
+		l.printf("def %s : Bool := %v\n", fn.lean, setPeer < stat)
+	}
 	must(l.finish(out))
 }
 
@@ -1156,10 +1226,10 @@ func extractStubgen(p *pkgs, out string) {
 	l.printf("def streamIndexFrom : String := %s\n", leanStr(idxFrom))
 	// the if / else-if / else chain
 	type branch struct {
-		cond            string
-		incr            bool
-		callee, path    string
-		indexed, tail   bool
+		cond          string
+		incr          bool
+		callee, path  string
+		indexed, tail bool
 	}
 	var branches []branch
 	var chain *ast.IfStmt
